@@ -78,6 +78,77 @@ type fixture struct {
 	Run func(b []byte) (err error, follow func() error)
 	// Fields are structured alterations (mutation class "field"): name -> bytes or alternative run
 	Fields func(r *rand.Rand) []fieldMut
+	// Layout names the consecutive fields of Valid (mutation class "truncEvery": every prefix, keyed by the
+	// field the cut falls in). Empty: derived (protobuf top-level fields, else one field "input").
+	Layout []span
+}
+
+// span is a named run of bytes of a valid input.
+type span struct {
+	Name string
+	Len  int
+}
+
+// maxEveryPrefix bounds the inputs whose every prefix is fed.
+const maxEveryPrefix = 640
+
+// layoutOf returns the field layout used to name truncation points.
+func (fx *fixture) layoutOf() []span {
+	if len(fx.Layout) > 0 {
+		return fx.Layout
+	}
+	if strings.HasPrefix(fx.Parser, "vss-") {
+		// top-level protobuf fields: tag+length prefix belongs to the field
+		var out []span
+		b := fx.Valid
+		for len(b) > 0 {
+			tag, n := pbVarint(b)
+			if n < 0 {
+				break
+			}
+			l := n
+			switch tag & 7 {
+			case 0:
+				_, m := pbVarint(b[n:])
+				if m < 0 {
+					return []span{{"input", len(fx.Valid)}}
+				}
+				l += m
+			case 2:
+				ln, m := pbVarint(b[n:])
+				if m < 0 || int(ln) > len(b)-n-m {
+					return []span{{"input", len(fx.Valid)}}
+				}
+				l += m + int(ln)
+			default:
+				return []span{{"input", len(fx.Valid)}}
+			}
+			name := fmt.Sprintf("f%d", tag>>3)
+			if k := len(out); k > 0 && out[k-1].Name == name {
+				out[k-1].Len += l // repeated field (commitments)
+			} else {
+				out = append(out, span{name, l})
+			}
+			b = b[l:]
+		}
+		return out
+	}
+	return []span{{"input", len(fx.Valid)}}
+}
+
+// fieldAt names the field containing offset off (a cut at off keeps bytes [0,off)).
+func fieldAt(layout []span, off int) string {
+	pos := 0
+	for _, s := range layout {
+		if off < pos+s.Len {
+			if off == pos {
+				return "before-" + s.Name
+			}
+			return "in-" + s.Name
+		}
+		pos += s.Len
+	}
+	return "end"
 }
 
 type fieldMut struct {
@@ -279,7 +350,8 @@ func buildFixtures(seed int64, only string) []*fixture {
 			must(err)
 			pub, _ := X.MarshalBinary()
 			out = append(out, &fixture{Parser: "schnorr.Verify", Config: e.name, Valid: sig,
-				Run: func(b []byte) (error, func() error) { return schnorr.VerifyWithChecks(e.g, pub, msg, b), nil },
+				Layout: []span{{"R", e.g.PointLen()}, {"s", e.g.ScalarLen()}},
+				Run:    func(b []byte) (error, func() error) { return schnorr.VerifyWithChecks(e.g, pub, msg, b), nil },
 				Fields: func(r *rand.Rand) []fieldMut {
 					var fm []fieldMut
 					for _, m := range byteMutations(pub, r, 2) {
@@ -298,7 +370,7 @@ func buildFixtures(seed int64, only string) []*fixture {
 		sig, err := ed.Sign(msg)
 		must(err)
 		pub, _ := ed.Public.MarshalBinary()
-		out = append(out, &fixture{Parser: "eddsa.Verify", Config: "ed25519", Valid: sig,
+		out = append(out, &fixture{Parser: "eddsa.Verify", Config: "ed25519", Valid: sig, Layout: []span{{"R", 32}, {"s", 32}},
 			Run: func(b []byte) (error, func() error) { return eddsa.VerifyWithChecks(pub, msg, b), nil },
 			Fields: func(r *rand.Rand) []fieldMut {
 				var fm []fieldMut
@@ -398,9 +470,9 @@ func buildFixtures(seed int64, only string) []*fixture {
 					must(err)
 					parts = append(parts, p)
 				}
-				out = append(out, &fixture{Parser: "tbls.VerifyPartial", Config: cfgName, Valid: parts[1],
+				out = append(out, &fixture{Parser: "tbls.VerifyPartial", Config: cfgName, Valid: parts[1], Layout: []span{{"index", 2}, {"sig", len(parts[1]) - 2}},
 					Run: func(b []byte) (error, func() error) { return th.VerifyPartial(pub, msg, b), nil }})
-				out = append(out, &fixture{Parser: "tbls.Recover", Config: cfgName, Valid: parts[0],
+				out = append(out, &fixture{Parser: "tbls.Recover", Config: cfgName, Valid: parts[0], Layout: []span{{"index", 2}, {"sig", len(parts[0]) - 2}},
 					Run: func(b []byte) (error, func() error) {
 						sigs := [][]byte{b, parts[1], parts[2], parts[3]}
 						_, err := th.Recover(pub, msg, sigs, uint32(t), uint32(n))
@@ -452,6 +524,7 @@ func buildFixtures(seed int64, only string) []*fixture {
 				must(cosi.Verify(s, pubs, msg, sig, nil))
 			}); !pan {
 				out = append(out, &fixture{Parser: "cosi.Verify", Config: n, Valid: sig,
+					Layout: []span{{"commitment", s.PointLen()}, {"response", s.ScalarLen()}, {"mask", len(sig) - s.PointLen() - s.ScalarLen()}},
 					Run: func(b []byte) (error, func() error) {
 						if b == nil {
 							b = []byte{}
@@ -495,7 +568,8 @@ func buildFixtures(seed int64, only string) []*fixture {
 			ct, err := ecies.Encrypt(s, X, msg, s.Hash)
 			must(err)
 			out = append(out, &fixture{Parser: "ecies.Decrypt", Config: n, Valid: ct,
-				Run: func(b []byte) (error, func() error) { _, err := ecies.Decrypt(s, x, b, s.Hash); return err, nil }})
+				Layout: []span{{"ephemeral", s.PointLen()}, {"body", len(msg)}, {"tag", 16}},
+				Run:    func(b []byte) (error, func() error) { _, err := ecies.Decrypt(s, x, b, s.Hash); return err, nil }})
 		}
 		if want("anon") {
 			st := seedStream(seed, "anon", n)
@@ -509,7 +583,8 @@ func buildFixtures(seed int64, only string) []*fixture {
 			ct, err := anon.Encrypt(s, msg, set)
 			must(err)
 			out = append(out, &fixture{Parser: "anon.Decrypt", Config: n, Valid: ct,
-				Run: func(b []byte) (error, func() error) { _, err := anon.Decrypt(s, b, set, 1, privs[1]); return err, nil }})
+				Layout: []span{{"ephemeral", s.PointLen()}, {"header", 3 * s.ScalarLen()}, {"body", len(msg)}, {"tag", 16}},
+				Run:    func(b []byte) (error, func() error) { _, err := anon.Decrypt(s, b, set, 1, privs[1]); return err, nil }})
 			for _, scope := range [][]byte{nil, []byte("scope")} {
 				scope := scope
 				sig := anon.Sign(s, msg, set, scope, 1, privs[1])
@@ -858,6 +933,19 @@ func casesFor(fx *fixture, mut string, seed int64, per int) []compCase {
 		}
 		return out
 	}
+	if mut == "truncEvery" {
+		if len(fx.Valid) > maxEveryPrefix {
+			return nil
+		}
+		layout := fx.layoutOf()
+		for n := 0; n < len(fx.Valid); n++ {
+			b := append([]byte{}, fx.Valid[:n]...)
+			out = append(out, compCase{fx: fx, mut: mut, sub: fieldAt(layout, n), b: b, run: func() (error, func() error) {
+				return fx.Run(append([]byte{}, b...))
+			}})
+		}
+		return out
+	}
 	for _, b := range concretise(mut, fx.Valid, r, per) {
 		b := b
 		out = append(out, compCase{fx: fx, mut: mut, b: b, run: func() (error, func() error) {
@@ -909,11 +997,15 @@ func CompositeReplay(cfg Config, res *core.Result) error {
 	for _, f := range fxs {
 		byParser[f.Parser] = append(byParser[f.Parser], f)
 	}
+	// one task per (fixture, mutation class): every concrete case runs once and is judged against each behaviour
+	// of that class (the "ok" branch, the "error" branch, the branch with the follow-up)
 	type task struct {
-		b  Behaviour
-		fx *fixture
+		fx  *fixture
+		mut string
+		bs  []Behaviour
 	}
 	var tasks []task
+	idx := map[string]int{}
 	missing := map[string]bool{}
 	for _, b := range bhs {
 		fl := byParser[b[0].Parser]
@@ -921,7 +1013,14 @@ func CompositeReplay(cfg Config, res *core.Result) error {
 			missing[b[0].Parser] = true
 		}
 		for _, f := range fl {
-			tasks = append(tasks, task{b, f})
+			k := f.Parser + "|" + f.Config + "|" + b[0].Mut
+			ti, ok := idx[k]
+			if !ok {
+				ti = len(tasks)
+				idx[k] = ti
+				tasks = append(tasks, task{fx: f, mut: b[0].Mut})
+			}
+			tasks[ti].bs = append(tasks[ti].bs, b)
 		}
 	}
 	for p := range missing {
@@ -936,42 +1035,49 @@ func CompositeReplay(cfg Config, res *core.Result) error {
 	perParser := map[string]int{}
 	core.Parallel(len(tasks), runtime.NumCPU(), func(i int) {
 		t := tasks[i]
-		st := t.b[0]
 		locks[t.fx].Lock()
 		defer locks[t.fx].Unlock()
-		cases := casesFor(t.fx, st.Mut, cfg.Seed, cfg.Per)
+		cases := casesFor(t.fx, t.mut, cfg.Seed, cfg.Per)
 		if len(cases) == 0 {
-			res.Skip("mutation-class-not-applicable:" + st.Mut)
+			res.Skip("mutation-class-not-applicable:" + t.mut)
 			return
 		}
+		anyFollow := false
+		for _, b := range t.bs {
+			if len(b) > 1 {
+				anyFollow = true
+			}
+		}
 		for ci, c := range cases {
-			withFollow := len(t.b) > 1
-			cr := runFixture(c.run, withFollow)
-			id := fmt.Sprintf("%s|%s|%s|%s|%d", t.fx.Parser, t.fx.Config, st.Mut, c.sub, ci)
-			detail := func(step int, exp any, got, pn, stk string) map[string]any {
-				return map[string]any{"parser": t.fx.Parser, "config": t.fx.Config, "mutation": st.Mut, "sub": c.sub, "input_hex": hexs(c.b), "input_len": len(c.b),
-					"valid_hex": hexs(t.fx.Valid), "behaviour": t.b, "step": step, "expected": exp, "got": got, "error": cr.err, "panic": pn, "stack": stk,
-					"tlc": "Decode.tla Mode=composite, INVARIANT Emit"}
-			}
-			if !in(st.Allowed, cr.outcome) {
-				res.Eval(id)
-				res.Violate(compKey(cfg.Prop, c, cr.outcome), fmt.Sprintf("%s (%s): input mutated by [%s %s] -> %s, specification allows %v", t.fx.Parser, t.fx.Config, st.Mut, c.sub, cr.outcome, st.Allowed),
-					detail(0, st.Allowed, cr.outcome, cr.panicS, cr.stack))
-				continue
-			}
-			if cr.outcome != st.Outcome {
-				continue
-			}
-			res.Eval(id + fmt.Sprint(len(t.b)))
-			mu.Lock()
-			perParser[t.fx.Parser]++
-			mu.Unlock()
-			if withFollow && cr.follow != "" && !in(t.b[1].Allowed, cr.follow) {
-				res.Violate(compKey(cfg.Prop, c, "use:"+t.b[1].Op, cr.follow), fmt.Sprintf("%s (%s): %s on the value parsed from input mutated by [%s %s] -> %s, specification allows %v", t.fx.Parser, t.fx.Config, t.b[1].Op, st.Mut, c.sub, cr.follow, t.b[1].Allowed),
-					detail(1, t.b[1].Allowed, cr.follow, cr.fpanic, cr.fstack))
-			}
-			if ci == 0 && st.Mut == "flipMid" {
-				res.Sample(map[string]any{"parser": t.fx.Parser, "config": t.fx.Config, "behaviour": t.b, "input_hex": hexs(c.b), "observed": cr.outcome})
+			cr := runFixture(c.run, anyFollow)
+			id := fmt.Sprintf("%s|%s|%s|%s|%d", t.fx.Parser, t.fx.Config, t.mut, c.sub, ci)
+			for _, b := range t.bs {
+				st := b[0]
+				detail := func(step int, exp any, got, pn, stk string) map[string]any {
+					return map[string]any{"parser": t.fx.Parser, "config": t.fx.Config, "mutation": st.Mut, "sub": c.sub, "input_hex": hexs(c.b), "input_len": len(c.b),
+						"valid_hex": hexs(t.fx.Valid), "behaviour": b, "step": step, "expected": exp, "got": got, "error": cr.err, "panic": pn, "stack": stk,
+						"tlc": "Decode.tla Mode=all, INVARIANT Emit"}
+				}
+				if !in(st.Allowed, cr.outcome) {
+					res.Eval(id)
+					res.Violate(compKey(cfg.Prop, c, cr.outcome), fmt.Sprintf("%s (%s): input mutated by [%s %s] -> %s, specification allows %v", t.fx.Parser, t.fx.Config, st.Mut, c.sub, cr.outcome, st.Allowed),
+						detail(0, st.Allowed, cr.outcome, cr.panicS, cr.stack))
+					break
+				}
+				if cr.outcome != st.Outcome {
+					continue
+				}
+				res.Eval(id + fmt.Sprint(len(b)))
+				mu.Lock()
+				perParser[t.fx.Parser]++
+				mu.Unlock()
+				if len(b) > 1 && cr.follow != "" && !in(b[1].Allowed, cr.follow) {
+					res.Violate(compKey(cfg.Prop, c, "use:"+b[1].Op, cr.follow), fmt.Sprintf("%s (%s): %s on the value parsed from input mutated by [%s %s] -> %s, specification allows %v", t.fx.Parser, t.fx.Config, b[1].Op, st.Mut, c.sub, cr.follow, b[1].Allowed),
+						detail(1, b[1].Allowed, cr.follow, cr.fpanic, cr.fstack))
+				}
+				if ci == 0 && st.Mut == "flipMid" {
+					res.Sample(map[string]any{"parser": t.fx.Parser, "config": t.fx.Config, "behaviour": b, "input_hex": hexs(c.b), "observed": cr.outcome})
+				}
 			}
 		}
 	})
@@ -985,7 +1091,7 @@ func CompositeReplay(cfg Config, res *core.Result) error {
 func CompositeRecord(cfg Config, res *core.Result) error {
 	fxs := buildFixtures(cfg.Seed+1000, cfg.Only)
 	tw := newTraceWriter()
-	muts := []string{"valid", "empty", "trunc1", "truncHalf", "truncTo1", "extend1", "extendBig", "flipFirst", "flipMid", "flipLast", "all00", "allff", "random", "randomLen", "field"}
+	muts := []string{"valid", "empty", "trunc1", "truncHalf", "truncTo1", "truncEvery", "extend1", "extendBig", "flipFirst", "flipMid", "flipLast", "all00", "allff", "random", "randomLen", "field"}
 	core.Parallel(len(fxs), runtime.NumCPU(), func(i int) {
 		fx := fxs[i]
 		for _, m := range muts {
